@@ -223,7 +223,7 @@ fn truncated_at<const K: usize, const Z: usize>() {
 macro_rules! trunc_harness {
     ($name:ident, $k:expr, $z:expr) => {
         #[kani::proof]
-        #[kani::unwind(24)]
+        #[kani::unwind(10)]
         #[kani::stub(alloc::fmt::format, crate::stubs::fmt_format)]
         fn $name() {
             truncated_at::<$k, $z>();
@@ -235,7 +235,7 @@ trunc_harness!(c13_truncated_at_6, 6, 0);
 trunc_harness!(c13_truncated_at_7, 7, 0);
 trunc_harness!(c13_truncated_at_13_z2, 13, 2);
 trunc_harness!(c13_truncated_at_16_z2, 16, 2);
-trunc_harness!(c13_truncated_at_40, 40, 1);
+trunc_harness!(c13_truncated_at_20, 20, 1);
 
 /// Truncation inside the zone list of the LAST azimuth segment at a CONCRETE cut point (the symbolic
 /// cut of c13_truncated_last_zones ran out of 30 GB): one declared segment whose azimuth 359 declares
